@@ -36,6 +36,11 @@ func init() {
 			// the RIGHT argument (first key; third argument for scripts; every key of a multi-key request), real CRC
 			ms := []string{"CRespCodec).MGet", "CRespCodec).Del", "CRespCodec).MSet"}
 			js = append(js, job(pkgCore, "HarnessC02Req", 1, 2), job(pkgCore, "HarnessC02Req", 3, 1), sites(job(pkgCore, "HarnessC06", 0, 2, 3, 0), ms...))
+			// the mapping has no memory: a long key is looked up again after thousands of other long keys
+			js = append(js, noMapOrder(job(pkgHashkit, "HarnessC05History", 2500, 40)))
+			if tier == "thorough" {
+				js = append(js, noMapOrder(job(pkgHashkit, "HarnessC05History", 10000, 40)), noMapOrder(job(pkgHashkit, "HarnessC05History", 3000, 64)))
+			}
 			if tier == "thorough" {
 				js = append(js, job(pkgCore, "HarnessC02Req", 2, 3), sites(job(pkgCore, "HarnessC06", 2, 2, 2, 1), ms...), sites(job(pkgCore, "HarnessC06", 1, 3, 2, 0), ms...))
 			}
@@ -43,9 +48,9 @@ func init() {
 		},
 		Bounds: func(tier string) string {
 			if tier == "thorough" {
-				return "every key of length 0..14 bytes (all byte values, all brace arrangements); table lemma over all 256 indices; one-step CRC fold lemma over every 32-bit pre-state and byte; end to end through the request decoder (every single-key command, scripts, MGET/DEL/MSET) with keys of 1..3 arbitrary bytes: each fragment is filed under the specification slot of the right argument"
+				return "every key of length 0..14 bytes (all byte values, all brace arrangements); table lemma over all 256 indices; one-step CRC fold lemma over every 32-bit pre-state and byte; end to end through the request decoder (every single-key command, scripts, MGET/DEL/MSET) with keys of 1..3 arbitrary bytes: each fragment is filed under the specification slot of the right argument; no memory: 40- and 64-byte keys looked up again after 10000 / 3000 other long keys"
 			}
-			return "every key of length 0..10 bytes (all byte values, all brace arrangements); table lemma over all 256 indices; one-step CRC fold lemma over every 32-bit pre-state and byte; end to end through the request decoder (every single-key command, scripts, MGET) with keys of 1..3 arbitrary bytes: each fragment is filed under the specification slot of the right argument"
+			return "every key of length 0..10 bytes (all byte values, all brace arrangements); table lemma over all 256 indices; one-step CRC fold lemma over every 32-bit pre-state and byte; end to end through the request decoder (every single-key command, scripts, MGET) with keys of 1..3 arbitrary bytes: each fragment is filed under the specification slot of the right argument; no memory: a 40-byte key (tagged or not) looked up again after 2500 other long keys"
 		},
 		Assumptions: []string{"specification oracle: bitwise CRC16/XMODEM and the hash-tag rule written in the harness from the Redis Cluster specification"},
 		Stubs:       []string{"strings.Index / bytealg.IndexByteString as closed-form first-match terms"},
@@ -92,6 +97,8 @@ func init() {
 			js = append(js, sites(withSumHash(job(pkgCore, "HarnessC06", 2, 2, 1, 0)), ms...), sites(withSumHash(job(pkgCore, "HarnessC06", 2, 2, 2, 2)), ms...))
 			// the request object comes recycled from the pool after a wider request; and a 5-key list
 			js = append(js, sites(withSumHash(job(pkgCore, "HarnessC06Warm", 0, 3, 1, 0)), ms...), sites(withSumHash(job(pkgCore, "HarnessC06Warm", 1, 3, 1, 0)), ms...), sites(withSumHash(job(pkgCore, "HarnessC06Warm", 2, 2, 1, 1)), ms...), sites(withSumHash(job(pkgCore, "HarnessC06", 0, 5, 1, 0)), ms...))
+			// the request object comes recycled from a multi-key request that was refused for its size
+			js = append(js, sites(withSumHash(job(pkgCore, "HarnessC06Refused", 0, 3, 1, 0)), ms...), sites(withSumHash(job(pkgCore, "HarnessC06Refused", 1, 2, 1, 0)), ms...), sites(withSumHash(job(pkgCore, "HarnessC06Refused", 2, 2, 1, 1)), ms...))
 			// the real CRC/hash-tag code instead of its specification
 			js = append(js, sites(job(pkgCore, "HarnessC06", 0, 2, 1, 0), ms...), sites(job(pkgCore, "HarnessC06", 0, 2, 3, 0), ms...), sites(job(pkgCore, "HarnessC06", 2, 2, 1, 1), ms...), sites(job(pkgCore, "HarnessC06", 1, 3, 1, 0), ms...))
 			if tier == "thorough" {
@@ -248,7 +255,7 @@ func init() {
 			if tier == "thorough" {
 				return []*JobCfg{pipe(1, 1, 6, allKinds), pipe(1, 2, 10, allKinds), pipe(1, 3, 9, kG|kM|kP|kU|kQ), world(1, 2, 0, 9, kG|kM, fBackErr), world(1, 2, 0, 9, kG|kM|kP, fSplit), world(1, 1, 1, 8, kG|kM|kP, 0), worldO(1, 2, 0, 8, kM|kP, 0), world(1, 2, 0, 8, allKinds, fWide), world(1, 3, 0, 8, allKinds, fBatch), world(1, 2, 1, 8, kG|kM|kP, fMulti|fBatch), world(1, 1, 1, 8, kG|kM, fHangup), world(1, 2, 1, 7, kG|kM|kP, fHangup), noMapOrder(job(pkgServer, "HarnessBig", 0, 5000, 20, 256)), noMapOrder(job(pkgServer, "HarnessBig", 0, 17000, 30, 32768)), noMapOrder(job(pkgServer, "HarnessBig", 0, 17000, 17000, 256)), noMapOrder(job(pkgServer, "HarnessBig", 0, 70000, 5000, 65536))}
 			}
-			return []*JobCfg{pipe(1, 1, 6, allKinds), pipe(1, 2, 8, allKinds), world(1, 2, 0, 7, kG|kM, fBackErr), world(1, 2, 0, 7, kG|kP, fSplit), pipe(1, 3, 6, kG|kP|kQ), world(1, 3, 0, 6, kG|kM|kP|kU, fBatch), world(1, 2, 1, 6, kG|kM, fMulti|fBatch), world(1, 1, 1, 6, kG|kM, fHangup), noMapOrder(job(pkgServer, "HarnessBig", 0, 5000, 20, 256)), noMapOrder(job(pkgServer, "HarnessBig", 0, 17000, 30, 32768))}
+			return []*JobCfg{pipe(1, 1, 6, allKinds), pipe(1, 2, 8, allKinds), world(1, 2, 0, 7, kG|kM, fBackErr), world(1, 2, 0, 7, kG|kP, fSplit), pipe(1, 3, 6, kG|kP|kQ), world(1, 3, 0, 6, kG|kM|kP|kU, fBatch), world(1, 2, 1, 6, kG|kM, fMulti|fBatch), world(1, 1, 1, 6, kG|kM, fHangup), noMapOrder(job(pkgServer, "HarnessBig", 0, 5000, 20, 256)), noMapOrder(job(pkgServer, "HarnessBig", 0, 17000, 30, 32768)), noMapOrder(job(pkgServer, "HarnessC02Slow", 4)), noMapOrder(job(pkgServer, "HarnessC09Slow", 16, 3))}
 		},
 		Bounds: func(tier string) string {
 			return "pipelines of 1..3 requests, each of a solver-chosen kind (GET, SET, two-key MGET over one or two nodes, PING, unknown command, wrong arity, QUIT last) with solver-chosen key bytes/owner, every schedule of up to 8 (quick) / 9 (thorough) events; a second concurrent client, one of the two possibly disconnecting at any point with requests in flight (the other client's replies must be unaffected); replies of 5000 and 17000 bytes completing out of order"
@@ -258,12 +265,12 @@ func init() {
 	register(&CheckSpec{ID: "C09", Patterns: []string{pkgServer},
 		Jobs: func(tier string) []*JobCfg {
 			if tier == "thorough" {
-				return []*JobCfg{pipe(9, 2, 10, allKinds), pipe(9, 3, 9, kG|kM|kP), world(9, 3, 0, 9, kG|kM, fSplit), world(9, 2, 1, 8, kG|kM, 0), world(9, 2, 0, 8, kG|kM, fSplit|fBackErr), world(9, 3, 0, 8, kG|kM|kP, fBatch|fSplit), world(9, 2, 1, 8, kG|kM, fMulti|fBatch), world(9, 3, 1, 7, kG|kM, fMulti|fBatch)}
+				return []*JobCfg{pipe(9, 2, 10, allKinds), pipe(9, 3, 9, kG|kM|kP), world(9, 3, 0, 9, kG|kM, fSplit), world(9, 2, 1, 8, kG|kM, 0), world(9, 2, 0, 8, kG|kM, fSplit|fBackErr), world(9, 3, 0, 8, kG|kM|kP, fBatch|fSplit), world(9, 2, 1, 8, kG|kM, fMulti|fBatch), world(9, 3, 1, 7, kG|kM, fMulti|fBatch), noMapOrder(job(pkgServer, "HarnessC09Slow", 16, 4)), noMapOrder(job(pkgServer, "HarnessC09Slow", 8, 3)), noMapOrder(job(pkgServer, "HarnessC09Slow", 64, 4))}
 			}
-			return []*JobCfg{pipe(9, 2, 8, allKinds), world(9, 2, 0, 7, kG|kM, fSplit), world(9, 3, 0, 7, kG, fSplit), world(9, 3, 0, 6, kG|kM, fBatch), world(9, 2, 1, 6, kG|kM, fMulti|fBatch)}
+			return []*JobCfg{pipe(9, 2, 8, allKinds), world(9, 2, 0, 7, kG|kM, fSplit), world(9, 3, 0, 7, kG, fSplit), world(9, 3, 0, 6, kG|kM, fBatch), world(9, 2, 1, 6, kG|kM, fMulti|fBatch), noMapOrder(job(pkgServer, "HarnessC09Slow", 16, 3))}
 		},
 		Bounds: func(tier string) string {
-			return "liveness reduced to a one-step progress obligation: after EVERY backend-reply event in every schedule (2..3 requests, <= 8/9 events) no completed request is left at the head of the client's queue, i.e. the longest completed prefix has been written"
+			return "liveness reduced to a one-step progress obligation: after EVERY backend-reply event in every schedule (2..3 requests, <= 8/9 events) no completed request is left at the head of the client's queue, i.e. the longest completed prefix has been written; a slow reader: 3 (thorough 4) pipelined requests answered while the client's socket accepts nothing / 3 bytes / everything per write, writable events in between, then the client catches up (writable events for as long as the proxy asks the poller for them): every completed reply has been delivered, byte-exact"
 		},
 		Assumptions: []string{worldAssume, "'promptly' = within the same event-loop event; unbounded histories are covered only through this inductive step"}, Stubs: []string{stubWorld},
 		Outside: []string{"real time, fairness of epoll, more than 3 outstanding requests"}})
@@ -282,9 +289,9 @@ func init() {
 	register(&CheckSpec{ID: "C03", Patterns: []string{pkgServer},
 		Jobs: func(tier string) []*JobCfg {
 			if tier == "thorough" {
-				return []*JobCfg{world(3, 1, 1, 9, kG|kM, fUnowned), world(3, 2, 1, 8, kG|kM, fUnowned), world(3, 1, 1, 8, kG|kM, fHangup), world(3, 1, 1, 8, kG|kM, fDial), world(3, 1, 1, 8, kG|kM, fBackErr), world(3, 1, 1, 7, kG|kM, fLoss), world(3, 1, 1, 7, kG|kM, fTimeout), worldO(3, 1, 1, 7, kM, fUnowned), world(3, 2, 1, 7, kG|kM, fMulti|fBatch), world(3, 1, 1, 7, kG|kM, fRemove), noMapOrder(job(pkgServer, "HarnessBig", 0, 5000, 20, 256)), noMapOrder(job(pkgServer, "HarnessBig", 0, 17000, 30, 32768)), noMapOrder(job(pkgServer, "HarnessBig", 0, 17000, 17000, 256)), noMapOrder(job(pkgServer, "HarnessBig", 0, 70000, 5000, 65536))}
+				return []*JobCfg{world(3, 1, 1, 9, kG|kM, fUnowned), world(3, 2, 1, 8, kG|kM, fUnowned), world(3, 1, 1, 8, kG|kM, fHangup), world(3, 1, 1, 8, kG|kM, fDial), world(3, 1, 1, 8, kG|kM, fBackErr), world(3, 1, 1, 7, kG|kM, fLoss), world(3, 1, 1, 7, kG|kM, fTimeout), worldO(3, 1, 1, 7, kM, fUnowned), world(3, 2, 1, 7, kG|kM, fMulti|fBatch), world(3, 1, 1, 7, kG|kM, fRemove), noMapOrder(job(pkgServer, "HarnessBig", 0, 5000, 20, 256)), noMapOrder(job(pkgServer, "HarnessBig", 0, 17000, 30, 32768)), noMapOrder(job(pkgServer, "HarnessBig", 0, 17000, 17000, 256)), noMapOrder(job(pkgServer, "HarnessBig", 0, 70000, 5000, 65536)), noMapOrder(job(pkgServer, "HarnessBig", 2, 9000, 20, 256)), noMapOrder(job(pkgServer, "HarnessBig", 2, 9000, 5000, 256)), noMapOrder(job(pkgServer, "HarnessBig", 2, 70000, 5000, 65536)), noMapOrder(job(pkgServer, "HarnessBig", 2, 17000, 17000, 32768))}
 			}
-			return []*JobCfg{world(3, 1, 1, 7, kG|kM, fUnowned), world(3, 1, 1, 6, kG|kM, fHangup), world(3, 1, 1, 6, kM, fDial), world(3, 1, 1, 6, kG|kM, fBackErr), world(3, 2, 1, 6, kG|kM, fMulti|fBatch), noMapOrder(job(pkgServer, "HarnessBig", 0, 5000, 20, 256)), noMapOrder(job(pkgServer, "HarnessBig", 0, 17000, 30, 32768))}
+			return []*JobCfg{world(3, 1, 1, 7, kG|kM, fUnowned), world(3, 1, 1, 6, kG|kM, fHangup), world(3, 1, 1, 6, kM, fDial), world(3, 1, 1, 6, kG|kM, fBackErr), world(3, 2, 1, 6, kG|kM, fMulti|fBatch), noMapOrder(job(pkgServer, "HarnessBig", 0, 5000, 20, 256)), noMapOrder(job(pkgServer, "HarnessBig", 0, 17000, 30, 32768)), noMapOrder(job(pkgServer, "HarnessBig", 2, 9000, 20, 256)), noMapOrder(job(pkgServer, "HarnessBig", 2, 9000, 5000, 256))}
 		},
 		Bounds: func(tier string) string {
 			return "two clients with 1..2 requests each (GET / two-key MGET, solver-chosen owners and key bytes), every schedule up to 6 (quick) / 8 (thorough) events, with one of: node B's slots unowned, a client disconnecting mid-flight, dialling node B failing; thorough adds backend loss and timeouts"
@@ -443,7 +450,7 @@ func init() {
 			if tier == "thorough" {
 				js = append(js, noMapOrder(job(pkgServer, "HarnessBig", 0, 5000, 20, 256)), noMapOrder(job(pkgServer, "HarnessBig", 0, 17000, 30, 32768)), noMapOrder(job(pkgServer, "HarnessBig", 0, 17000, 17000, 256)), noMapOrder(job(pkgServer, "HarnessBig", 0, 70000, 5000, 65536)), noMapOrder(job(pkgServer, "HarnessBig", 1, 9000, 0, 256)), noMapOrder(job(pkgServer, "HarnessBig", 1, 17000, 0, 32768)), noMapOrder(job(pkgServer, "HarnessBig", 1, 70000, 0, 65536)))
 			} else {
-				js = append(js, noMapOrder(job(pkgServer, "HarnessBig", 0, 5000, 20, 256)), noMapOrder(job(pkgServer, "HarnessBig", 0, 17000, 30, 32768)), noMapOrder(job(pkgServer, "HarnessBig", 1, 9000, 0, 256)))
+				js = append(js, noMapOrder(job(pkgServer, "HarnessBig", 0, 5000, 20, 256)), noMapOrder(job(pkgServer, "HarnessBig", 0, 17000, 30, 32768)), noMapOrder(job(pkgServer, "HarnessBig", 1, 9000, 0, 256)), noMapOrder(job(pkgServer, "HarnessBig", 2, 9000, 20, 256)))
 			}
 			if tier == "thorough" {
 				for shape := int64(0); shape <= 9; shape++ {
